@@ -4,6 +4,6 @@ from . import classlaws, spec_c05
 
 def build(repo, tier, seed):
     classes = [c for c in classlaws.READY if c in spec_c05.SPECS]
-    b = classlaws.bundle(repo, tier, seed, ("C05",), classes=classes)
+    b = classlaws.bundle(repo, tier, seed, ("C05",), classes=classes, crosscheck=True)
     b["assumptions"].append("spec terms are written from the property statement (contracts/spec_c05.py); Python operators and user callables are uninterpreted")
     return b
